@@ -30,7 +30,7 @@ Proof. exact callback_refusal_keeps_payload. Qed.
 Print Assumptions C05_refusal_keeps_payload.
 
 Theorem C05_no_route_noop :
-  forall i ev req, match inst_do i ev req with IRoute i' => i' = i | _ => True end.
+  forall i ev req, match inst_do i ev req with IRoute i' => dump_of i' = dump_of i | _ => True end.
 Proof. exact do_route_or_refusal_noop. Qed.
 Print Assumptions C05_no_route_noop.
 
